@@ -68,7 +68,7 @@ def run(
     module = Path(module)
     cfg = Path(cfg)
     metadir.mkdir(parents=True, exist_ok=True)
-    cmd = ["java", "-XX:+UseParallelGC", "-Xss16m"]
+    cmd = ["java", "-XX:+UseParallelGC", "-Xss16m", f"-Djava.io.tmpdir={metadir}"]   # TLC unpacks its standard modules there
     cmd += jvm or []
     cmd += [f"-DTLA-Library={LIBPATH}", "-cp", f"{JAR}:{DEPS}", "tlc2.TLC"]
     cmd += ["-workers", str(workers or WORKERS), "-metadir", str(metadir), "-noGenerateSpecTE"]
@@ -131,7 +131,13 @@ def run(
 
 def sany(module: Path) -> None:
     module = Path(module).resolve()
-    cmd = ["java", f"-DTLA-Library={LIBPATH}", "-cp", f"{JAR}:{DEPS}", "tla2sany.SANY", module.name]
-    p = subprocess.run(cmd, cwd=str(module.parent), capture_output=True, text=True, timeout=120)
+    import tempfile
+    tmp = tempfile.mkdtemp(prefix="sany-")
+    cmd = ["java", f"-Djava.io.tmpdir={tmp}", f"-DTLA-Library={LIBPATH}", "-cp", f"{JAR}:{DEPS}", "tla2sany.SANY", module.name]
+    try:
+        p = subprocess.run(cmd, cwd=str(module.parent), capture_output=True, text=True, timeout=120)
+    finally:
+        import shutil
+        shutil.rmtree(tmp, ignore_errors=True)
     if p.returncode != 0 or "Semantic errors" in p.stdout or "***Parse Error***" in p.stdout or "Fatal" in p.stdout:
         raise TLCFailure(f"SANY rejects {module}:\n{p.stdout[-3000:]}{p.stderr[-1000:]}")
